@@ -241,16 +241,23 @@ Definition iface_member_of (fl : flat) (obj iface : nat) : bool :=
 Definition is_union_member (fl : flat) (u m : nat) : bool :=
   existsb (fun km => key_eqb (fst km) (0, u) && Nat.eqb (snd km) m) (fl_members fl).
 
+(* covariance as in the GraphQL rule for implementing fields: a non-null sub-type may stand where
+   the interface says nullable; lists are covariant; a member of a union / an implementer of an
+   interface may stand for it *)
+Definition strip_nn (t : tref) : tref := match t with TNN s => s | _ => t end.
+
 Fixpoint sub_type (fl : flat) (target sub : tref) {struct target} : bool :=
-  tref_eqb target sub ||
-  match sub with TNN s => tref_eqb target s | _ => false end ||
-  match target, sub with
-  | TN t, TN s =>
-      (has_kind fl KUnion t && is_union_member fl t s) ||
-      (has_kind fl KInterface t && has_kind fl KObject s && iface_member_of fl s t)
-  | TL t, TL s => sub_type fl t s
-  | TNN t, TNN s => sub_type fl t s
-  | _, _ => false
+  match target with
+  | TNN t => match sub with TNN s => sub_type fl t s | _ => false end
+  | TL t => match strip_nn sub with TL s => sub_type fl t s | _ => false end
+  | TN t =>
+      match strip_nn sub with
+      | TN s =>
+          Nat.eqb t s ||
+          (has_kind fl KUnion t && is_union_member fl t s) ||
+          (has_kind fl KInterface t && has_kind fl KObject s && iface_member_of fl s t)
+      | _ => false
+      end
   end.
 
 Definition fields_of (fl : flat) (owner : key) : list fieldd :=
